@@ -50,6 +50,7 @@ type Ctl struct {
 	Sticky  float64       // probability of releasing the same goroutine again (depth-first flavour)
 	lastKey string
 	stop    bool
+	NoPark  bool // log events without parking (used for the second Run of a graph, which launches nothing)
 }
 
 func NewCtl(seed int64) *Ctl {
@@ -85,7 +86,7 @@ func (c *Ctl) Emit(e Event, park bool) {
 		c.Log = append(c.Log, e)
 		c.lastEvt = time.Now()
 	}
-	if !park {
+	if !park || c.NoPark {
 		c.mu.Unlock()
 		return
 	}
